@@ -39,7 +39,11 @@ ContainOk(e) ==
 
 AliasOk(e) ==
   LET S == 1..e.n  G == {<<i, e.target[i]>> : i \in {j \in S : e.target[j] # 0}}  loop == OnCycle(G, S) IN
-  /\ e.accepted <=> (loop = {})                               \* alias loops are rejected, loop-free alias chains accepted
+  /\ loop # {} => ~e.accepted                                 \* alias loops are rejected,
+  \* loop-free alias chains accepted - unless an alias is used as a dictionary key (wrapper 5) and names something that is
+  \* no legal key: then the key rules (C04: E003 - E006) may speak, and nothing else
+  /\ loop = {} => (e.accepted \/ (5 \in ToSet(e.w) /\ ToSet(e.codes) \subseteq {"E003", "E004", "E005", "E006"}))
+  /\ loop = {} => e.e019 = <<>>
   \* a self-referential-alias report names an alias that has no finite type: one on a loop or one that leads into a loop
   \* (the statement asks for rejection only; which aliases are named is not part of it - an earlier version of this
   \* check demanded exactly the aliases on a loop, which is more than the property states)
